@@ -374,6 +374,14 @@ def run(ck: core.Check):
 
 
 def replay(ck: core.Check, doc) -> bool:
+    if doc.get("kind") == "obligation":
+        # no concrete input was found: re-run the proof + correspondence (same seed) and report
+        ck.seed = doc.get("seed", 0)
+        ck.rng = random.Random(ck.seed)
+        run(ck)
+        for b in ck.broken_items[:5]:
+            print(f"still broken: {b['kind']}: {b['name']}: {b['detail'][:300]}")
+        return bool(ck.broken_items or ck.failures)
     case = doc["case"]
     ops = {o.key: o for o in L.load_vocabulary()}
     op = ops[case["op_key"]]
@@ -381,4 +389,8 @@ def replay(ck: core.Check, doc) -> bool:
     print(json.dumps(info, default=str)[:1500])
     if key is not None:
         print(f"{key}: {what}")
+    known = {f["key"] for f in core.load_findings() if f["property"] == "C05" and f.get("status") == "known"}
+    if key is not None and key != doc.get("key") and key in known:
+        print(f"(the input now only shows the listed known finding {key}, not {doc.get('key')})")
+        return False
     return key is not None
